@@ -26,3 +26,9 @@ claim("C16", "reference-model monitor: integer-lattice rectangles vs the real Ge
       "operators; results are mapped back to integer rectangles with plain numpy matrices and compared with min/max rectangle algebra; overlap_roi is applied to a boolean "
       "image; incompatible grids (>=1e-3 px / scale / 0.1 deg) must raise; bounding-box laws are checked with exact float equality.",
       _TB + " Regions in another CRS are projected with the oracle's own pyproj transformer.", "DESIGN.md 5/C16")
+
+claim("C08", "post-condition monitors on GeoBox.from_bbox / from_geopolygon / zoom_to(resolution=) evaluated on every call (direct stratified workload + calls from compute_output_geobox)",
+      "Arithmetic on the returned GeoBox only: requested pixel size and sign, per-side coverage up to tol, excess < 1 px + tol, anchor alignment unless floating/tight, "
+      "exact shape and < 1 px displacement for shape requests; ~3e4 (quick) / 2e6 (thorough) judged calls over resolution signs x anchors x tight x tol x magnitudes 1e-3..1e7 px "
+      "with start coordinates placed on either side of every tolerance boundary.",
+      _TB + " eps = 1e-9*max(1,|coord|/pixel).", "DESIGN.md 5/C08")
